@@ -10,9 +10,9 @@ import (
 )
 
 type vCase struct {
-	Harness string      `json:"harness"`
-	Vector  []vVecEntry `json:"vector"`
-	Realtime bool       `json:"realtime"`
+	Harness  string      `json:"harness"`
+	Vector   []vVecEntry `json:"vector"`
+	Realtime bool        `json:"realtime"`
 }
 
 type vOut struct {
